@@ -80,6 +80,7 @@ class ManualRun:
         self.ctx = None
         self.sim = None
         self.decisions = 0
+        self.events = []          # one key per drive(): which lines changed, to which level
         self._out = None
 
     # --- API for bodies ------------------------------------------------------------------------
@@ -95,6 +96,7 @@ class ManualRun:
     def drive(self, changes):
         """changes: {"sync.clk": 1, "sync.rst": 0, ...}; one write, all changes coincide."""
         self.levels.update(changes)
+        self.events.append(",".join("%s=%d" % kv for kv in sorted(changes.items())))
         v = 0
         for i, line in enumerate(self.top.lines):
             if self.levels[line]:
